@@ -71,7 +71,8 @@ class Mux(recorded.Module):
             st, tr = d, g
         n = 600 if th else 120
         self.files["random"] = sc.path("mux-random.ndjson")
-        vlib.run_driver(exe, ["mux-gen", "-n", n, "-seed", sd, "-out", self.files["random"]] + (["-big"] if True else []))
+        vlib.run_driver(exe, ["mux-gen", "-n", n, "-seed", sd, "-out", self.files["random"], "-big",
+                               "-sweep", 9000 if th else 300])
         return st, tr
 
     def recordings(self, prop, tier, sd):
